@@ -242,10 +242,10 @@ def small_scope_c06():
 
 # ------------------------------------------------------------------ C04
 ADVERSARIAL = ["..", ".", "%2e%2e", "%2e", "..%2f", "%5c..", "\\..", "", "%00", "%252e%252e", "?", P.LONG,
-               "a.txt", "b", "c.txt", "more"]
+               "a.txt", "b", "c.txt", "more", "x+y.txt", "p+q.txt"]
 LONG_OK = "m" * 255
 CORE = ["..", "%2e%2e", "", "..%2f..", "a.txt", "b", "."]
-MORE_TOKENS = ["%2f", "%2F", "%5c", "\\", "//", "%252f", "%c0%ae", "%c0%af", "%e0%80%ae", "..;", "....", ". .", "%20",
+MORE_TOKENS = ["x%20y.txt", "x y.txt", "p%2Bq.txt", "p%20q.txt", "%2f", "%2F", "%5c", "\\", "//", "%252f", "%c0%ae", "%c0%af", "%e0%80%ae", "..;", "....", ". .", "%20",
                "above.txt", "next.txt", "srv", "root", "rootx", "roota.txt", "a.txt.j2", "c.txt.j2", "%2e%2e%2f",
                "..%5c", "%00.txt", "\x00", "?/../", "#", "é", "‥", "．．", "n" * 255, "n" * 256, "%6e" * 256]
 
